@@ -9,6 +9,8 @@ from __future__ import annotations
 
 from fractions import Fraction
 
+from pint.errors import DimensionalityError
+
 from .. import regs
 from ..ref import stdtable
 from ..runner import Case
@@ -79,6 +81,35 @@ def h_prefixes(eng):
         eng.prove(ureg.get_symbol(name + "meter") == sym + "m", f"prefix-symbol-text:{name}")
 
 
+SI_UNITS = ["meter", "second", "gram", "ampere", "kelvin", "mole", "candela", "radian", "steradian", "hertz", "newton", "pascal", "joule", "watt", "coulomb", "volt", "farad", "ohm",
+            "siemens", "weber", "tesla", "henry", "lumen", "lux", "becquerel", "gray", "sievert", "katal", "liter", "electron_volt", "byte", "bit"]  # fmt: skip
+
+
+def h_prefix_cross(eng, unit):
+    """SI brochure: a prefix symbol joined to a unit symbol denotes that multiple of the unit --
+    unless the joined string is itself the standard symbol of a unit in the table (cd, Pa, ...)"""
+    ureg = regs.default(eng)
+    x = eng.real("x")
+    table = {n: (v, vec, sym) for n, v, vec, sym in stdtable.entries()}
+    std_symbols = {sym for _n, (_v, _vec, sym) in table.items() if sym}
+    usym = table[unit][2] or unit
+    for pname, pval, psym in stdtable.prefixes():
+        if (len(psym) == 2 and psym != "da") != (unit in ("byte", "bit")):
+            continue  # binary prefixes go with information units only
+        text = psym + usym
+        if text in std_symbols:
+            continue
+        try:
+            r = ureg.Quantity(x, text).to(unit)
+        except DimensionalityError:
+            # known finding K9 ('mcd'): reported under its own label
+            eng.fail(f"prefix-cross-read-as-another-unit:{text}", stop=False)
+            continue
+        eng.prove(Eq(r.magnitude, x * pval), f"prefix-cross:{text}")
+        # (the canonical name may be that of an equal unit with its own entry, e.g. fm = fermi)
+        eng.prove(format(ureg.Unit(pname + unit), "~") == text, f"prefix-cross-symbol:{text}")
+
+
 MIN_DISCHARGED = {"H20.table": 500, "H20.temperature": 20, "H20.prefix": 90}
 
 
@@ -90,4 +121,6 @@ def cases(tier, seed):
         out.append(Case("H20.table", f"{i:03d}:{chunk[0]}", M, "h_entries", {"names": chunk}, validate=1))
     out.append(Case("H20.temperature", "all", M, "h_temperatures", {}, validate=1))
     out.append(Case("H20.prefix", "all", M, "h_prefixes", {}, validate=1))
+    for u in SI_UNITS:
+        out.append(Case("H20.prefix", f"cross:{u}", M, "h_prefix_cross", {"unit": u}, validate=1))
     return out
